@@ -280,7 +280,7 @@ def run_case(desc):
             return v.result(evaluations=0)
     else:
         case = mapgen.case_from_seed(desc["seed"], desc["i"], allow_autogen=desc["i"] % 2 == 1, allow_renames=desc["i"] % 3 == 0,
-                                     allow_int_arrays=desc["i"] % 4 == 1)
+                                     allow_int_arrays=desc["i"] % 4 == 1, allow_picker=desc["i"] % 3 == 1)
         v = V()
     env, exp_calls = mapgen.oracle(case)
     gens = max(len(c) for c in exp_calls.values())
